@@ -46,7 +46,7 @@ func vrfH_C06() {
 	}
 	doc := &spec.Swagger{}
 	doc.Definitions = spec.Definitions{}
-	// edge[i][j]: definition i refers to definition j (as a property, as items, as an allOf member or as additionalItems)
+	// edge[i][j]: definition i refers to definition j (as a property, as items, as an allOf member, as additionalItems, or as additionalProperties beside properties)
 	edge := make([][]bool, n)
 	for i := 0; i < n; i++ {
 		edge[i] = make([]bool, n)
@@ -59,7 +59,18 @@ func vrfH_C06() {
 			}
 			edge[i][j] = true
 			r := c06Ref(names[j])
-			switch (i + j + vrfParam("edgeshift", 0)) % 4 { // distinct holder kind for each target j of one definition (n <= 4)
+			kind := (i + j + vrfParam("edgeshift", 0)) % 4 // distinct holder kind for each target j of one definition (n <= 4)
+			if vrfParam("edgeshift", 0) >= 4 && kind == 0 {
+				kind = 4
+			}
+			switch kind {
+			case 4:
+				// additionalProperties of an object that also declares properties
+				if s.Properties == nil {
+					s.Properties = map[string]spec.Schema{}
+				}
+				s.Properties["id"] = spec.Schema{}
+				s.AdditionalProperties = &spec.SchemaOrBool{Allows: true, Schema: &r}
 			case 0:
 				if s.Properties == nil {
 					s.Properties = map[string]spec.Schema{}
